@@ -7,7 +7,7 @@ RULE = ("mode 1: a real Node is constructed from a generated Config (every durat
         "max, max+1, huge) under the virtual clock, reading the four deadlines it creates (ChunkStore record, manifest "
         "expires_at, shard record, own provider announcement); mode 3: the control server's STORE handler (the real "
         "ControlServer::Impl::handle_client over a socketpair) with TTL headers: absent, digits around min/max, 2^63, "
-        "2^64-1, 2^64, leading zeros / sign / spaces / hex / empty / trailing garbage. Oracle (independent of the model): "
+        "2^64-1, 2^64, values congruent to an acceptable TTL modulo 2^16 / 2^31 / 2^32 / 2^63, leading zeros / sign / spaces / hex / empty / trailing garbage. Oracle (independent of the model): "
         "1 <= min <= max <= 86400, min <= default <= max, 5 <= rotation <= 3600, PoW <= 24; every created lifetime is inside "
         "[min, max] of the node's effective config and equals the requested TTL when that is inside the window; a STORE "
         "is accepted iff the header is a decimal uint64 inside the window (or absent) and the stored chunk then lives for "
@@ -55,6 +55,12 @@ def generate(rng, tier):
         base = max(0, base)
         if k == 0:
             cases.append({"ints": [3] + c + [0, 0], "tag": "gate-absent"})
+            # values whose low 16 / 32 / 63 bits are an acceptable TTL (a narrowing conversion anywhere on the path would let
+            # them through)
+            for w in (2 ** 16, 2 ** 31, 2 ** 32, 2 ** 33, 2 ** 63, 2 ** 64 - 2 ** 32):
+                v = w + rng.choice([30, 60, 3600, 21600, 86400])
+                if v < 2 ** 64:
+                    cases.append({"ints": [3] + c + [1] + lp(str(v).encode()), "tag": "gate-wrap"})
             continue
         text = {1: str(base), 2: "0" * rng.randrange(1, 5) + str(base), 3: "+" + str(base), 4: "-" + str(base), 5: " " + str(base),
                 6: str(base) + " ", 7: "0x10", 8: "", 9: str(rng.choice([2 ** 63 - 1, 2 ** 63, 2 ** 64 - 1, 2 ** 64, 2 ** 64 + 30, 10 ** 30])),
